@@ -37,12 +37,18 @@ func (x *Exec) Drive(nops int, note string) []GenOp {
 		if x.Cfg.Stats && x.rng.Intn(25) == 0 {
 			x.statsEvent()
 		}
+		if x.Cfg.Mem && x.rng.Intn(40) == 0 {
+			x.memEvent()
+		}
 	}
 	x.battery()
 	if x.Cfg.Stats {
 		x.statsEvent()
 	}
 	x.qmisBattery()
+	if x.Cfg.Mem {
+		x.memEvent()
+	}
 	x.misuseBattery(nops)
 	// close what is still open; the world must be unlocked afterwards (checked by the monitor)
 	qids := []int{}
@@ -259,6 +265,9 @@ func (x *Exec) randomOp(maxEnt int) (GenOp, bool) {
 		o.Vals = FlexMap[int64]{}
 		o.N = 2 + x.rng.Intn(4)
 		o.Mode = "fn"
+		if len(o.Add) > 0 && x.rng.Intn(4) == 0 {
+			o.Mode = "noinit"
+		}
 		return o, true
 	case kind < 25:
 		o := mk("Copy")
@@ -577,6 +586,18 @@ var eventNames = []string{"OnCreateEntity", "OnRemoveEntity", "OnAddComponents",
 func (x *Exec) randomObserver() GenObs {
 	comps := x.Cfg.Comps
 	o := GenObs{Ev: eventNames[x.rng.Intn(len(eventNames))], Obs: []string{}, With: []string{}, Without: []string{}}
+	if len(x.obsSpec) > 0 && x.rng.Intn(10) < 6 {
+		// the aggregates of the observer manager are per event type: prefer a type that is already observed
+		ids := []int{}
+		for id := range x.obsSpec {
+			ids = append(ids, id)
+		}
+		sort.Ints(ids)
+		o.Ev = x.obsSpec[ids[x.rng.Intn(len(ids))]].Ev
+	}
+	if x.rng.Intn(4) == 0 {
+		return o // an unfiltered observer
+	}
 	cand := comps
 	if o.Ev == "OnAddRelations" || o.Ev == "OnRemoveRelations" {
 		cand = x.relNames()
